@@ -4,7 +4,8 @@ import NessaiVerif.Driver.Parse
 Line protocol of the live-set model (token `ls`).  The driver is stateless: every line carries
 its whole input.
 
-  ls run <n> <cands> <ops>      ops ∈ {p,c,f}*  (populate / consume / finalise) run from `St.new n` on one
+  ls run <n> <cands> <ops>      ops ∈ {p,c,f,m}*  (populate / consume / finalise / m = only the first half of
+                                consume_sample: a kill inside it, followed by a restart) run from `St.new n` on one
                                 candidate stream; answer: one dump per op joined by " | ", then " || " and the
                                 full nested / idx / hist lists.  An op that fails prints `err=<e>` and ends the run.
   ls step <n> <iter> <live> <cands>   one `consume` from the given live set
@@ -90,6 +91,9 @@ def runOps : List Char → St → List Cand → List String → String
       if op == 'p' then some (populate s cands)
       else if op == 'c' then some (consume s cands)
       else if op == 'f' then some (.ok (finalise s, cands))
+      else if op == 'm' then some (match beginConsume s with
+        | some m => .ok (m, cands)
+        | none => .error .index)
       else none
     match r with
     | none => "bad-op"
